@@ -125,9 +125,10 @@ class ZlibStub:
 
     error = Exception
 
-    def __init__(self, out_len, log=None):
+    def __init__(self, out_len, log=None, lenient=False):
         self.out_len = out_len
         self.log = log if log is not None else []
+        self.lenient = lenient  # fault mode: any byte string may be handed to the decompressor
 
     def _inflate(self, buf, wbits, max_length):
         if isinstance(buf, (bytes, bytearray)):
@@ -139,7 +140,12 @@ class ZlibStub:
         if len(b.segs) != 1 or b.segs[0].kind != "file":
             if not core.eng().feasible():
                 raise core.PathAbort("infeasible path reached the decompressor")
-            raise Unsupported("inflate of non-contiguous input")
+            if not self.lenient:
+                raise Unsupported("inflate of non-contiguous input")
+            first = b.segs[0] if b.segs else Seg("zero", None, 0, 0)
+            key = (str(first.src or "mixed"), first.start, b.length(), wbits, max_length if max_length else 0)
+            self.log.append(key)
+            return SymBytes([Seg("opaque", "inflated", 0, self.out_len(key, max_length))])
         s = b.segs[0]
         key = (s.src, s.start, s.length, wbits, max_length if max_length else 0)
         self.log.append(key)
